@@ -965,6 +965,8 @@ class Blob(ShaFile):
     @chunked.setter
     def chunked(self, chunks: list[bytes]) -> None:
         self._chunked_text = chunks
+        # the cached id belongs to the previous contents
+        self._sha = None
 
     def _serialize(self) -> list[bytes]:
         assert self._chunked_text is not None
